@@ -227,7 +227,7 @@ def classify(h, r, pid):
     if undet:
         return {"status": "inconclusive", "reason": "undetermined checks: " + undet[0]["desc"][:100], "failures": []}
     bad_cov = [c for c in r["covers"] if c["status"] != "SATISFIED"
-               and not any(o and o in c["desc"] for o in h.optional_covers)]
+               and not any(o and o in c["desc"].replace("_", " ") for o in h.optional_covers)]
     if bad_cov:
         return {"status": "inconclusive", "reason": "vacuity witness not satisfied: " + bad_cov[0]["desc"][:120], "failures": []}
     return {"status": "pass", "failures": [], "reason": ""}
